@@ -58,6 +58,7 @@ type caseCfg struct {
 	persistent bool
 	perStage   bool // one Router per stage (otherwise one Router with all handlers)
 	decorator  bool // fault publisher via AddPublisherDecorators (otherwise wrapped publisher passed to AddHandler)
+	bare       bool // the source publishes struct-literal messages (&message.Message{UUID, Payload}): Metadata is nil, the lineage is in the UUID only
 	tap        bool // an extra subscription of the source topic outside the pipeline, subscribed first
 	yield      int  // permille of hook / wrapper points at which the goroutine yields or sleeps a little
 	seed       uint64
@@ -125,8 +126,12 @@ func (c caseCfg) String() string {
 	if c.stopSibling {
 		word = "ps"
 	}
-	return fmt.Sprintf("%s %s %d b%dk%sp%s r%sd%st%s %d %d %s", word, shapeString(c.shape, c.widths...), c.nmsgs, c.buf, b01(c.blocking), b01(c.persistent),
-		b01(c.perStage), b01(c.decorator), b01(c.tap), c.yield, c.seed, fs)
+	wiring := fmt.Sprintf("r%sd%st%s", b01(c.perStage), b01(c.decorator), b01(c.tap))
+	if c.bare {
+		wiring += "m1"
+	}
+	return fmt.Sprintf("%s %s %d b%dk%sp%s %s %d %d %s", word, shapeString(c.shape, c.widths...), c.nmsgs, c.buf, b01(c.blocking), b01(c.persistent),
+		wiring, c.yield, c.seed, fs)
 }
 
 func parseShape(s string) ([][]int, []int, error) {
@@ -175,6 +180,10 @@ func parseCfg(line string) (caseCfg, error) {
 	var k, p, r, d, t int
 	if _, err = fmt.Sscanf(f[3], "b%dk%dp%d", &c.buf, &k, &p); err != nil {
 		return c, err
+	}
+	if strings.HasSuffix(f[4], "m1") {
+		c.bare = true
+		f[4] = strings.TrimSuffix(f[4], "m1")
 	}
 	if _, err = fmt.Sscanf(f[4], "r%dd%dt%d", &r, &d, &t); err != nil {
 		return c, err
@@ -277,17 +286,30 @@ func (c caseCfg) fanOutStage() int {
 	return -1
 }
 
+// topicName gives every topic of the pipeline an arbitrary-looking name that depends on the case seed (topic names are the
+// application's choice; nothing in the property depends on them, so they are part of what is varied).
+func (c caseCfg) topicName(key string) string {
+	h := c.seed
+	for _, b := range []byte(key) {
+		h = splitmix(h ^ uint64(b))
+	}
+	words := []string{"orders", "billing", "audit", "stage", "events", "shipments", "inbox", "q"}
+	return fmt.Sprintf("%s.%s-%d", words[h%uint64(len(words))], key, (h>>8)%100000)
+}
+
+func (c caseCfg) srcTopic() string { return c.topicName("src") }
+
 func (c caseCfg) outTopic(s int) string {
 	xs := make([]string, len(c.shape[s]))
 	for i, t := range c.shape[s] {
 		xs[i] = strconv.Itoa(t)
 	}
-	return "t" + strings.Join(xs, "_")
+	return c.topicName("t" + strings.Join(xs, "_"))
 }
 
 func (c caseCfg) inTopic(t int) string {
 	if t == 0 {
-		return "src"
+		return c.srcTopic()
 	}
 	for s, row := range c.shape {
 		for _, x := range row {
@@ -310,20 +332,22 @@ type invRec struct {
 type rec struct {
 	cfg caseCfg
 
-	mu       sync.Mutex
-	evs      []string
-	sealed   bool
-	invN     int
-	invs     map[int]*invRec
-	hcalls   []int
-	pcalls   []int
-	used     []bool // per scripted fault
-	liveBy   []int  // obligations in flight per owing stage (= tokens of the model)
-	stopped  []bool // stages whose handler the harness stopped: what they owe does not count any more
-	srcDone  int
-	watchers int
-	stats    map[string]int
-	notes    []string
+	mu         sync.Mutex
+	evs        []string
+	sealed     bool
+	invN       int
+	invs       map[int]*invRec
+	hcalls     []int
+	pcalls     []int
+	used       []bool // per scripted fault
+	liveBy     []int  // obligations in flight per owing stage (= tokens of the model)
+	stopped    []bool // stages whose handler the harness stopped: what they owe does not count any more
+	srcDone    int
+	watchers   int
+	stats      map[string]int
+	notes      []string
+	ufails     map[[2]int]int // failures without a scripted fault, per (stage, lineage)
+	livelocked bool
 
 	notify chan struct{}
 	done   chan struct{}
@@ -438,8 +462,18 @@ func stamp(m *message.Message, hops int) {
 }
 
 // asPublished returns "" when the received copy is the message as it was published, else what differs.
-func asPublished(m *message.Message) string {
+func asPublished(m *message.Message, bare bool) string {
 	var d []string
+	if bare {
+		// published as &message.Message{UUID, Payload}: no metadata at all
+		if len(m.Metadata) != 0 {
+			d = append(d, fmt.Sprintf("metadata %v on a message published without metadata", m.Metadata))
+		}
+		if string(m.Payload) != "payload-"+strings.TrimPrefix(m.UUID, "L") {
+			d = append(d, fmt.Sprintf("payload %q", string(m.Payload)))
+		}
+		return strings.Join(d, "; ")
+	}
 	if m.Metadata.Get("dirty") != "" {
 		d = append(d, "carries the in-place mark of an earlier attempt")
 	}
@@ -460,11 +494,48 @@ func scribble(m *message.Message, hops int) {
 }
 
 func lineage(m *message.Message) int {
+	if _, has := m.Metadata["lin"]; !has && strings.HasPrefix(m.UUID, "L") {
+		// a message published without metadata (struct literal): the lineage is in the UUID only
+		if l, err := strconv.Atoi(m.UUID[1:]); err == nil && l >= 0 {
+			return l
+		}
+	}
 	l, err := strconv.Atoi(m.Metadata.Get("lin"))
 	if err != nil || l < 0 || "L"+m.Metadata.Get("lin") != m.UUID {
 		return 999999 // not a lineage any source message carries
 	}
 	return l
+}
+
+const livelockBound = 20
+
+// unscripted records a failure of an invocation that no scripted fault explains, pauses (so that a retry loop that never
+// ends stays small) and, after livelockBound such failures of one (stage, lineage), tells the controller that this delivery
+// keeps failing although the faults have stopped.
+func (r *rec) unscripted(stage, lin, inv int, kind, detail string) {
+	r.mu.Lock()
+	if r.stopped[stage] {
+		r.mu.Unlock()
+		return // a stopped handler's subscription context is cancelled: expected
+	}
+	key := [2]int{stage, lin}
+	r.ufails[key]++
+	n := r.ufails[key]
+	r.log(fmt.Sprintf("uf.%d.%d.%d.%s", stage, lin, inv, kind))
+	r.stats["unscripted-failure."+kind]++
+	if n == 1 {
+		r.notes = append(r.notes, fmt.Sprintf("stage %d lineage %d invocation %d failed without a scripted fault (%s): %s", stage, lin, inv, kind, detail))
+	}
+	if n == livelockBound+1 && !r.livelocked {
+		r.livelocked = true
+		r.log(fmt.Sprintf("livelock.%d.%d", stage, lin))
+	}
+	r.mu.Unlock()
+	r.wake()
+	if n > 50 {
+		n = 50
+	}
+	time.Sleep(time.Duration(n) * time.Millisecond)
 }
 
 func (r *rec) watch(inv, stage, lin int, m *message.Message) {
@@ -490,7 +561,7 @@ func (r *rec) handler(stage int) message.HandlerFunc {
 		r.yield()
 		lin := lineage(msg)
 		hops, _ := strconv.Atoi(msg.Metadata.Get("hops"))
-		diff := asPublished(msg)
+		diff := asPublished(msg, r.cfg.bare && stage == 0)
 		r.mu.Lock()
 		r.invN++
 		inv := r.invN
@@ -512,6 +583,25 @@ func (r *rec) handler(stage int) message.HandlerFunc {
 		r.mu.Unlock()
 		go r.watch(inv, stage, lin, msg)
 		r.yield()
+		scripted := f == "hp"
+		// a panic nobody scripted (e.g. the metadata of the received copy cannot be written) goes to the Router like any other
+		// panic; the harness only notes it and slows the retry loop down
+		defer func() {
+			if p := recover(); p != nil {
+				if !scripted {
+					r.unscripted(stage, lin, inv, "panic", fmt.Sprint(p))
+				}
+				panic(p)
+			}
+		}()
+		// a stage that honours the context of the message it was handed (as a handler that calls a database or a context-aware
+		// publisher does): a delivery whose context is already cancelled fails
+		if f == "" {
+			if err := msg.Context().Err(); err != nil {
+				r.unscripted(stage, lin, inv, "ctx", err.Error())
+				return nil, err
+			}
+		}
 		switch f {
 		case "he":
 			scribble(msg, hops)
@@ -651,7 +741,7 @@ func runCase(c caseCfg) result {
 	t0 := time.Now()
 	n := len(c.shape)
 	r := &rec{cfg: c, invs: map[int]*invRec{}, hcalls: make([]int, n), pcalls: make([]int, n), used: make([]bool, len(c.faults)),
-		stats: map[string]int{}, notify: make(chan struct{}, 1), done: make(chan struct{}), liveBy: make([]int, n+1), stopped: make([]bool, n+1)}
+		stats: map[string]int{}, ufails: map[[2]int]int{}, notify: make(chan struct{}, 1), done: make(chan struct{}), liveBy: make([]int, n+1), stopped: make([]bool, n+1)}
 	base := runtime.NumGoroutine()
 	// ps: hold the dispatcher of the fan-out topic at its second arrival (= between the first and the second subscription
 	// of the first dispatch); note when the unsubscribe goroutine is about to remove a subscription of that topic
@@ -691,7 +781,7 @@ func runCase(c caseCfg) result {
 
 	// the tap: a consumer of the source topic that is not part of the pipeline; it subscribes first
 	if c.tap {
-		ch, err := ps.Subscribe(ctx, "src")
+		ch, err := ps.Subscribe(ctx, c.srcTopic())
 		if err != nil {
 			panic(err)
 		}
@@ -776,15 +866,20 @@ func runCase(c caseCfg) result {
 
 	// the source: 1..N messages, from one goroutine or from one goroutine each
 	publishOne := func(l int) {
-		m := message.NewMessage("L"+strconv.Itoa(l), []byte("payload-"+strconv.Itoa(l)))
-		m.Metadata.Set("lin", strconv.Itoa(l))
-		stamp(m, 0)
+		var m *message.Message
+		if c.bare {
+			m = &message.Message{UUID: "L" + strconv.Itoa(l), Payload: []byte("payload-" + strconv.Itoa(l))}
+		} else {
+			m = message.NewMessage("L"+strconv.Itoa(l), []byte("payload-"+strconv.Itoa(l)))
+			m.Metadata.Set("lin", strconv.Itoa(l))
+			stamp(m, 0)
+		}
 		r.mu.Lock()
 		r.log(fmt.Sprintf("sc.%d", l))
 		r.liveBy[0]++
 		r.mu.Unlock()
 		r.yield()
-		err := ps.Publish("src", m)
+		err := ps.Publish(c.srcTopic(), m)
 		r.mu.Lock()
 		if err != nil {
 			r.log(fmt.Sprintf("sr.%d.err", l))
@@ -868,9 +963,15 @@ wait:
 	for {
 		r.mu.Lock()
 		q := r.live() == 0 && r.srcDone == c.nmsgs && r.watchers == 0
+		ll := r.livelocked
 		r.mu.Unlock()
 		if q {
 			break
+		}
+		if ll {
+			// one delivery has failed more than livelockBound times in a row although no scripted fault is left for it
+			stuck = true
+			break wait
 		}
 		select {
 		case <-r.notify:
@@ -938,6 +1039,7 @@ func emit(out *wh.Out, c caseCfg, class string) bool {
 	out.Count(fmt.Sprintf("shape.%s", shapeString(c.shape, c.widths...)))
 	out.Count(fmt.Sprintf("gochannel.buf%d.block%s.persist%s", c.buf, b01(c.blocking), b01(c.persistent)))
 	out.Count(fmt.Sprintf("wiring.perStageRouter%s.decorator%s.tap%s", b01(c.perStage), b01(c.decorator), b01(c.tap)))
+	out.Count("source.bare-struct-literal" + b01(c.bare))
 	out.Count(fmt.Sprintf("faults.scripted%d", len(c.faults)))
 	out.Count(fmt.Sprintf("msgs.%d", c.nmsgs))
 	out.Add("events", len(res.trace))
@@ -949,7 +1051,7 @@ func emit(out *wh.Out, c caseCfg, class string) bool {
 	}
 	for i, n := range res.notes {
 		if i < 3 {
-			out.Note("DIRTY " + c.String() + ": " + n)
+			out.Note("NOTE-CASE " + c.String() + ": " + n)
 		}
 	}
 	if res.leftover != "" {
@@ -978,9 +1080,9 @@ func chain(n int) [][]int {
 
 // shapes with a fan-out topic (two subscribed handlers) and a fan-in topic (two publishing handlers)
 var fanShapes = [][][]int{
-	{{1, 2}, {3}, {3}},         // 0 -> {1,2} -> sink topic (fan-in at the final topic)
-	{{1, 2}, {3}, {3}, {4}},    // diamond: 0 -> {1,2} -> 3 -> sink
-	{{1}, {2, 3}, {4}, {4}},    // 0 -> 1 -> {2,3} -> sink topic
+	{{1, 2}, {3}, {3}},      // 0 -> {1,2} -> sink topic (fan-in at the final topic)
+	{{1, 2}, {3}, {3}, {4}}, // diamond: 0 -> {1,2} -> 3 -> sink
+	{{1}, {2, 3}, {4}, {4}}, // 0 -> 1 -> {2,3} -> sink topic
 }
 
 func placements(stages, calls int, kinds []string) []faultSpec {
@@ -1036,6 +1138,7 @@ func randomWiring(rng *wh.Rng, c *caseCfg) {
 	c.perStage = rng.Bool()
 	c.decorator = rng.Bool()
 	c.tap = rng.Intn(4) == 0
+	c.bare = rng.Intn(5) == 0
 	c.yield = []int{0, 100, 300, 600}[rng.Intn(4)]
 	c.seed = rng.Next() % 1000000
 }
